@@ -434,6 +434,35 @@ Section GlobText.
     rewrite (handle_gstar_end st (i + 1) last cur G Hl). reflexivity.
   Qed.
 
+  (* a further `**` segment directly after a globstar (the text so far ends with the divider) is absorbed: nothing is
+     added, the run of separators after it - however spelled - is consumed, and the parser stands at the start of a segment *)
+  Lemma handle_gstar_merged st i bs r last cur :
+    gmode st -> nosep_head r = true -> itext last = xprint xDiv ->
+    handle_star cf st {| idx := i; rest := 42%N :: 47%N :: seprun bs ++ r |} (last :: cur) =
+    (set_start_dir (reset_dir_track (set_matchbase st false)), {| idx := i + 1 + 1 + Z.of_nat (length (seprun bs)); rest := r |}, last :: cur).
+  Proof.
+    intros [Ha [Hg Hi]] Hr Hl. unfold handle_star.
+    rewrite Hpath, Ha, Hg, Hi, Hdot, Hglong, Hgcap, Hg2, Hneed, Hstar2, Hsep. cbn [andb negb next rest idx].
+    change (N.eqb 42%N cSTAR) with true. cbv iota. cbn [next rest idx].
+    change (N.eqb 47%N cBS) with false. change (N.eqb 47%N cSL) with true. cbv iota.
+    replace (str_eqb (xprint xGstar) (xprint xGstar)) with true by reflexivity. cbn [negb andb].
+    replace (format Frag.u_GLOBSTAR_DIV (S_ "[/]") []) with (xprint xDiv) by reflexivity.
+    rewrite Hl. replace (str_eqb (xprint xDiv) (xprint xDiv)) with true by reflexivity. cbn [negb andb].
+    unfold consume_path_sep. rewrite Habort. cbn [rest idx].
+    rewrite (skip_slashes_run bs r _ Hr). reflexivity.
+  Qed.
+
+  Lemma pstep_gstar_merged f st i bs r last cur :
+    gmode st -> nosep_head r = true -> itext last = xprint xDiv ->
+    root_loop (S f) cf st {| idx := i; rest := 42%N :: 42%N :: 47%N :: seprun bs ++ r |} (last :: cur) =
+    root_loop f cf (update_dir_state (set_start_dir (reset_dir_track (set_matchbase st false))))
+              {| idx := i + 1 + 1 + 1 + Z.of_nat (length (seprun bs)); rest := r |} (last :: cur).
+  Proof.
+    intros G Hr Hl. cbn [root_loop next rest idx]. rewrite Hext. cbn [andb].
+    change (N.eqb 42%N cDOT) with false. change (N.eqb 42%N cSTAR) with true. cbv iota.
+    rewrite (handle_gstar_merged st (i + 1) bs r last cur G Hr Hl). reflexivity.
+  Qed.
+
   (* ---- patterns as units: an optional `**/` in front of each ordinary segment, an optional `/**` at the end ---- *)
   Definition unit_ := (bool * list tok)%type.
 
@@ -569,6 +598,199 @@ Section GlobText.
         exists st'', cur''. split; [|split; [|exact K2]].
         * eapply eq_trans; [exact E1|]. eapply eq_trans; [exact E|]. rewrite Ht.
           rewrite PS; [exact E2|apply K|apply punU_head; assumption].
+        * rewrite J2, J, J1. cbn [EU xprint]. rewrite <- !app_assoc. reflexivity.
+  Qed.
+
+  (* ---- the same patterns with respelled separators and repeated globstars -----------------------------------------------
+     front = None: no `**/` in front of the segment; Some (bs0, reps): `**/` + the run bs0, then for every run in reps a
+     further `**/` + that run (these merge into the first);  after = the run written after the segment when something
+     follows it (its first separator may be escaped) *)
+  Definition front_t := option (list bool * list (list bool)).
+  Definition unit_r := (front_t * list tok * (bool * list bool))%type.
+  Definition gstar_run (bs : list bool) : str := [42%N; 42%N; 47%N] ++ seprun bs.
+  Definition gfront (fr : front_t) : str :=
+    match fr with
+    | None => []
+    | Some (bs0, reps) => gstar_run bs0 ++ flat_map gstar_run reps
+    end.
+  Definition strip (u : unit_r) : unit_ := (match fst (fst u) with None => false | Some _ => true end, snd (fst u)).
+
+  Fixpoint punUr (units : list unit_r) (endg : bool) : str :=
+    match units with
+    | [] => if endg then [42%N; 42%N] else []
+    | (fr, ts, (b, bs)) :: more =>
+        gfront fr ++ unparse ts ++
+        (match more with
+         | [] => if endg then sepspell b ++ seprun bs ++ punUr more endg else []
+         | _ :: _ => sepspell b ++ seprun bs ++ punUr more endg
+         end)
+    end.
+
+  Definition uwf_r (u : unit_r) : bool := seg_wf (snd (fst u)).
+
+  Lemma punUr_head units endg : (units <> [] \/ endg = true) -> Forall (fun u => uwf_r u = true) units ->
+    nosep_head (punUr units endg) = true.
+  Proof.
+    intros Hne W. destruct units as [|[[fr ts] [b bs]] more].
+    - destruct Hne as [Hne|Hne]; [contradiction|]. subst endg. reflexivity.
+    - inversion W as [|? ? Wu _]; subst. destruct fr as [[bs0 reps]|]; [reflexivity|].
+      unfold uwf_r, seg_wf in Wu. cbn [snd fst] in Wu. apply andb_true_iff in Wu. destruct Wu as [Wp Wn].
+      destruct ts as [|t ts']; [discriminate|]. cbn [punUr gfront app].
+      apply punparse_head; [exact Wp|]. destruct more; [destruct endg|]; destruct b; reflexivity.
+  Qed.
+
+  Lemma handle_gstar_sep_run st i bs r last cur :
+    gmode st -> nosep_head (r) = true ->
+    str_eqb (itext last) (xprint xDiv) = false ->
+    handle_star cf st {| idx := i; rest := 42%N :: 47%N :: seprun bs ++ r |} (last :: cur) =
+    (set_start_dir (reset_dir_track (set_matchbase st false)), {| idx := i + 1 + 1 + Z.of_nat (length (seprun bs)); rest := r |}, gcur last cur).
+  Proof.
+    intros [Ha [Hg Hi]] Hr Hl. unfold handle_star, gcur.
+    rewrite Hpath, Ha, Hg, Hi, Hdot, Hglong, Hgcap, Hg2, Hneed, Hstar2, Hsep. cbn [andb negb next rest idx].
+    change (N.eqb 42%N cSTAR) with true. cbv iota. cbn [next rest idx].
+    change (N.eqb 47%N cBS) with false. change (N.eqb 47%N cSL) with true. cbv iota.
+    replace (str_eqb (xprint xGstar) (xprint xGstar)) with true by reflexivity. cbn [negb andb].
+    replace (format Frag.u_GLOBSTAR_DIV (S_ "[/]") []) with (xprint xDiv) by reflexivity.
+    replace (format Frag.u_NEED_SEP (S_ "[/]") []) with (xprint xNeedSep) by reflexivity.
+    rewrite Hl. cbn [negb].
+    unfold consume_path_sep. rewrite Habort. cbn [rest idx]. rewrite (skip_slashes_run bs r _ Hr).
+    destruct (str_eqb (itext last) []); reflexivity.
+  Qed.
+
+  Lemma pstep_gstar_sep_run f st i bs r last cur :
+    gmode st -> nosep_head (r) = true ->
+    str_eqb (itext last) (xprint xDiv) = false ->
+    root_loop (S f) cf st {| idx := i; rest := gstar_run bs ++ r |} (last :: cur) =
+    root_loop f cf (update_dir_state (set_start_dir (reset_dir_track (set_matchbase st false))))
+              {| idx := i + 1 + 1 + 1 + Z.of_nat (length (seprun bs)); rest := r |} (gcur last cur).
+  Proof.
+    intros G Hr Hl. unfold gstar_run. cbn [app]. cbn [root_loop next rest idx]. rewrite Hext. cbn [andb].
+    change (N.eqb 42%N cDOT) with false. change (N.eqb 42%N cSTAR) with true. cbv iota.
+    rewrite (handle_gstar_sep_run st (i + 1) bs r last cur G Hr Hl). reflexivity.
+  Qed.
+
+  Lemma nosep_head_gstar_run bs r : nosep_head (gstar_run bs ++ r) = true.
+  Proof. reflexivity. Qed.
+  Lemma gstar_run_len bs : length (gstar_run bs) = (3 + length (seprun bs))%nat.
+  Proof. reflexivity. Qed.
+  Lemma reps_len reps : (length reps <= length (flat_map gstar_run reps))%nat.
+  Proof. induction reps as [|x reps IHr]; [cbn; lia|]. cbn [flat_map length]. rewrite app_length, gstar_run_len. lia. Qed.
+
+  (* the further `**/` of a front are absorbed one by one *)
+  Lemma front_reps : forall reps f st i r last cur,
+    inv3 true st -> globstar st = true -> in_list st = false -> nosep_head r = true -> itext last = xprint xDiv ->
+    exists st1 i1, root_loop (length reps + f) cf st {| idx := i; rest := flat_map gstar_run reps ++ r |} (last :: cur) =
+                   root_loop f cf st1 {| idx := i1; rest := r |} (last :: cur) /\
+                   inv3 true st1 /\ globstar st1 = true /\ in_list st1 = false.
+  Proof.
+    induction reps as [|bs reps IH]; intros f st i r last cur I2 Hgs Hil Hr Hl.
+    - exists st, i. cbn [length plus flat_map app]. repeat split; try assumption; apply I2.
+    - cbn [length plus flat_map]. rewrite <- app_assoc.
+      assert (G : gmode st) by (destruct I2 as [_ [_ Ha]]; repeat split; assumption).
+      assert (Hnh : nosep_head (flat_map gstar_run reps ++ r) = true) by (destruct reps; [exact Hr|reflexivity]).
+      unfold gstar_run at 1. cbn [app].
+      rewrite (pstep_gstar_merged (length reps + f) st i bs (flat_map gstar_run reps ++ r) last cur G Hnh Hl).
+      apply IH; [apply inv3_after_gstar; exact I2|exact Hgs|exact Hil|exact Hr|exact Hl].
+  Qed.
+
+  Lemma unit_loop_r : forall (units : list unit_r) fuel st i (last : item) cur0 (atstart : bool) endg,
+    (units <> [] \/ endg = true) -> Forall (fun u => uwf_r u = true) units ->
+    (length (punUr units endg) < fuel)%nat -> inv3 true st -> globstar st = true -> in_list st = false ->
+    itext last = (if atstart then [] else xprint xSep) ->
+    exists st' cur', root_loop fuel cf st {| idx := i; rest := punUr units endg |} (last :: cur0) = Ok (st', cur') /\
+                     jrev cur' ++ xprint xTrail = jrev cur0 ++ xprint (EU atstart (map strip units) endg) /\ inv st'.
+  Proof.
+    pose proof (seg_advance cf) as SA. repeat match type of SA with (?A -> _) => specialize (SA ltac:(assumption)) end.
+    pose proof (pstep_sep_run cf) as PS. repeat match type of PS with ((_ = _) -> _) => specialize (PS ltac:(assumption)) end.
+    pose proof (pstep_escsep_run cf) as PE. repeat match type of PE with ((_ = _) -> _) => specialize (PE ltac:(assumption)) end.
+    induction units as [|[[fr ts] [b bs]] more IH]; intros fuel st i last cur0 atstart endg Hne W Hf I2 Hgs Hil Hl.
+    - destruct Hne as [Hne|Hne]; [contradiction|]. subst endg. cbn [punUr map] in *. cbn [length] in Hf.
+      destruct fuel as [|f]; [lia|].
+      assert (G : gmode st) by (destruct I2 as [_ [_ Ha]]; repeat split; assumption).
+      rewrite (pstep_gstar_end f st i last cur0 G (last_not_div _ _ Hl)).
+      destruct f as [|f']; [lia|].
+      eexists. eexists. split; [reflexivity|]. split.
+      + rewrite (gcur_jrev last cur0 atstart Hl). cbn [EU xprint]. rewrite <- !app_assoc. reflexivity.
+      + eapply inv3_inv. apply inv3_after_gstar_end. exact I2.
+    - inversion W as [|? ? Wu Wmore]; subst.
+      pose proof Wu as Wu'. unfold uwf_r, seg_wf in Wu'. cbn [snd fst] in Wu'. apply andb_true_iff in Wu'. destruct Wu' as [Wp Wn].
+      assert (Hts : exists t ts', ts = t :: ts') by (destruct ts as [|t ts']; [discriminate|eauto]).
+      set (tail := match more with
+                   | [] => if endg then sepspell b ++ seprun bs ++ punUr more endg else []
+                   | _ :: _ => sepspell b ++ seprun bs ++ punUr more endg
+                   end) in *.
+      assert (Htail : tail_ok tail = true) by (unfold tail; destruct more; [destruct endg|]; destruct b; reflexivity).
+      assert (Tcases : (more = [] /\ endg = false /\ tail = []) \/ ((more <> [] \/ endg = true) /\ tail = sepspell b ++ seprun bs ++ punUr more endg)).
+      { unfold tail. destruct more as [|u more'].
+        - destruct endg; [right; split; [right; reflexivity|reflexivity]|left; repeat split].
+        - right. split; [left; discriminate|reflexivity]. }
+      set (g := match fr with None => false | Some _ => true end).
+      assert (Hlenf : (length (gfront fr) + length (unparse ts) + length tail < fuel)%nat).
+      { clear - Hf. cbn [punUr] in Hf. fold tail in Hf. rewrite !app_length in Hf. cbv delta [ch str] in *. lia. }
+      (* the optional front *)
+      assert (Pre : exists f1 st1 i1 cur1,
+                 (fuel - length (gfront fr) <= f1)%nat /\ (f1 <= fuel)%nat /\
+                 root_loop fuel cf st {| idx := i; rest := punUr ((fr, ts, (b, bs)) :: more) endg |} (last :: cur0) =
+                 root_loop f1 cf st1 {| idx := i1; rest := unparse ts ++ tail |} cur1 /\
+                 jrev cur1 = jrev cur0 ++ xprint (if g then XCat (if atstart then XEps else xNeedSep) (XCat xGstar xDiv)
+                                                  else (if atstart then XEps else xSep)) /\
+                 inv3 true st1 /\ globstar st1 = true /\ in_list st1 = false).
+      { destruct fr as [[bs0 reps]|].
+        - cbn [punUr gfront]. fold tail. rewrite <- !app_assoc.
+          assert (G : gmode st) by (destruct I2 as [_ [_ Ha]]; repeat split; assumption).
+          destruct Hts as [t [ts' ->]].
+          assert (Hseg : nosep_head (unparse (t :: ts') ++ tail) = true) by (apply punparse_head; [exact Wp|exact Htail]).
+          assert (Hnh : nosep_head (flat_map gstar_run reps ++ unparse (t :: ts') ++ tail) = true) by (destruct reps; [exact Hseg|reflexivity]).
+          assert (Hfu : exists f0, fuel = S (length reps + f0)).
+          { cbn [gfront] in Hlenf. rewrite !app_length, gstar_run_len in Hlenf. pose proof (reps_len reps) as RL.
+            exists (fuel - 1 - length reps)%nat. cbv delta [ch str] in *. lia. }
+          destruct Hfu as [f0 ->].
+          rewrite (pstep_gstar_sep_run (length reps + f0) st i bs0 (flat_map gstar_run reps ++ unparse (t :: ts') ++ tail) last cur0 G Hnh (last_not_div _ _ Hl)).
+          destruct (front_reps reps f0 (update_dir_state (set_start_dir (reset_dir_track (set_matchbase st false))))
+                               (i + 1 + 1 + 1 + Z.of_nat (length (seprun bs0))) (unparse (t :: ts') ++ tail)
+                               (T (xprint xDiv)) (if str_eqb (itext last) [] then T (xprint xGstar) :: cur0 else T (xprint xGstar) :: T (xprint xNeedSep) :: cur0))
+            as [st1 [i1 [E1 [I1 [G1 L1]]]]]; [apply inv3_after_gstar; exact I2|exact Hgs|exact Hil|exact Hseg|reflexivity|].
+          exists f0, st1, i1, (gcur last cur0). split.
+          { cbn [gfront]. rewrite !app_length, gstar_run_len. pose proof (reps_len reps) as RL. cbv delta [ch str] in *. lia. }
+          split; [lia|]. split; [exact E1|]. split; [apply gcur_jrev; exact Hl|]. split; [exact I1|]. split; [exact G1|exact L1].
+        - cbn [punUr gfront app]. fold tail. exists fuel, st, i, (last :: cur0). split; [cbn; lia|]. split; [lia|]. split; [reflexivity|].
+          split.
+          + destruct last as [x|x]; cbn [itext] in Hl; subst x; unfold jrev; cbn [rev map]; rewrite map_app, concat_app; cbn [map concat itext];
+              rewrite app_nil_r; destruct atstart; reflexivity.
+          + split; [exact I2|]. split; [exact Hgs|exact Hil]. }
+      destruct Pre as [f1 [st1 [i1 [cur1 [Hf1 [Hf1' [E1 [J1 [I1 [G1 L1]]]]]]]]]].
+      assert (Hb : (length (unparse ts) <= f1)%nat) by (clear - Hlenf Hf1; cbv delta [ch str] in *; lia).
+      destruct (SA ts f1 st1 i1 cur1 true tail Wp Htail Hb I1)
+        as [f' [st' [i' [cur' [Hf' [E [J [K SM]]]]]]]].
+      rewrite Hdot in J.
+      change (map strip ((fr, ts, (b, bs)) :: more)) with ((g, ts) :: map strip more).
+      destruct Tcases as [[Hm [He Ht]]|[Hne2 Ht]].
+      + (* the pattern ends here *)
+        rewrite Ht in Hlenf. cbn [length] in Hlenf. cbv delta [ch str] in *.
+        destruct f' as [|f'']; [lia|].
+        exists st', cur'. split; [eapply eq_trans; [exact E1|]; eapply eq_trans; [exact E|]; rewrite Ht; reflexivity|]. split.
+        * rewrite J, J1. subst more endg. cbn [EU xprint map]. rewrite <- !app_assoc. reflexivity.
+        * eapply inv3_inv. exact K.
+      + rewrite Ht in Hlenf. rewrite !app_length in Hlenf. cbv delta [ch str] in *.
+        assert (Hsl : (1 <= length (sepspell b))%nat) by (destruct b; cbn; lia).
+        destruct f' as [|f'']; [lia|].
+        destruct SM as [SMg SMi].
+        assert (Hnh2 : nosep_head (punUr more endg) = true) by (apply punUr_head; assumption).
+        assert (Hstep : exists i2, root_loop (S f'') cf st' {| idx := i'; rest := sepspell b ++ seprun bs ++ punUr more endg |} cur' =
+                  root_loop f'' cf (update_dir_state (set_matchbase (set_start_dir st') false)) {| idx := i2; rest := punUr more endg |}
+                            (T (xprint xSep) :: cur')).
+        { destruct b; cbn [sepspell app].
+          - eexists. apply PE; [apply K|rewrite SMi; exact L1|exact Hnh2].
+          - eexists. apply PS; [apply K|exact Hnh2]. }
+        destruct Hstep as [i2 Hstep].
+        destruct (IH f'' (update_dir_state (set_matchbase (set_start_dir st') false)) i2 (T (xprint xSep)) cur' false endg)
+          as [st'' [cur'' [E2 [J2 K2]]]].
+        { exact Hne2. } { exact Wmore. } { lia. } { eapply inv3_after_sep. exact K. }
+        { destruct (same_mode_upd (set_matchbase (set_start_dir st') false)) as [X1 _]. rewrite X1. cbn. congruence. }
+        { destruct (same_mode_upd (set_matchbase (set_start_dir st') false)) as [_ X2]. rewrite X2. cbn. congruence. }
+        { reflexivity. }
+        exists st'', cur''. split; [|split; [|exact K2]].
+        * eapply eq_trans; [exact E1|]. eapply eq_trans; [exact E|]. rewrite Ht. rewrite Hstep. exact E2.
         * rewrite J2, J, J1. cbn [EU xprint]. rewrite <- !app_assoc. reflexivity.
   Qed.
 End GlobText.
@@ -707,6 +929,122 @@ Proof.
   rewrite !jrev_cons, J, EU_top. cbn [jrev rev map concat app].
   destruct (matchbase st' || extmatchbase st'); reflexivity.
 Qed.
+
+
+(* ---- respelled separators and repeated globstars: the same text ---------------------------------------------------------- *)
+Lemma punUr_cons units endg : (units <> [] \/ endg = true) -> Forall (fun u => uwf_r u = true) units ->
+  exists d r, punUr units endg = d :: r /\ d <> 47%N.
+Proof.
+  intros Hne W. pose proof (punUr_head units endg Hne W) as H.
+  destruct (punUr units endg) as [|d r] eqn:E.
+  - exfalso. destruct units as [|[[fr ts] [b bs]] more].
+    + destruct Hne as [Hne|Hne]; [contradiction|]. subst. discriminate.
+    + inversion W as [|? ? Wu _]; subst. unfold uwf_r, seg_wf in Wu. cbn [snd fst] in Wu. apply andb_true_iff in Wu. destruct Wu as [_ Wn].
+      destruct fr as [[bs0 reps]|]; [discriminate|]. destruct ts as [|t ts']; [discriminate|]. destruct t; cbn in E; discriminate.
+  - exists d, r. split; [reflexivity|]. unfold nosep_head in H. apply andb_true_iff in H. destruct H as [H _].
+    apply negb_true_iff in H. apply N.eqb_neq in H. exact H.
+Qed.
+
+Lemma punUr_not_lone_bs units endg : Forall (fun u => uwf_r u = true) units -> str_eqb (punUr units endg) [cBS] = false.
+Proof.
+  intros W. destruct (str_eqb (punUr units endg) [cBS]) eqn:E; [|reflexivity]. exfalso. apply str_eqb_true in E.
+  destruct units as [|[[fr ts] [b bs]] more].
+  - destruct endg; discriminate.
+  - destruct fr as [[bs0 reps]|]; [discriminate|]. inversion W as [|? ? Wu _]; subst. unfold uwf_r in Wu. cbn [snd fst] in Wu.
+    cbn [punUr gfront app] in E.
+    destruct (match more with [] => if endg then sepspell b ++ seprun bs ++ punUr more endg else [] | _ :: _ => sepspell b ++ seprun bs ++ punUr more endg end) as [|c tl] eqn:Et.
+    + rewrite app_nil_r in E. pose proof (punparse_not_lone_bs [ts] (Forall_cons _ Wu (Forall_nil _))) as Q.
+      cbn [punparse] in Q. rewrite E in Q. discriminate.
+    + apply andb_true_iff in Wu. destruct Wu as [_ Wn]. destruct ts as [|t ts']; [discriminate|].
+      pose proof (unparse_len_pos t ts') as L. apply (f_equal (@length N)) in E. rewrite app_length in E. cbn [length] in E.
+      cbv delta [ch str] in *. lia.
+Qed.
+
+Theorem wcparse_pathG_runs_text flags isb units endg :
+  (units <> [] \/ endg = true) -> Forall (fun u => uwf_r u = true) units ->
+  has flags PATHNAME = true -> has flags GLOBSTAR = true -> has flags GLOBSTARLONG = false -> has flags DOTMATCH = false ->
+  is_unix_style linux flags = true -> has flags EXTMATCH = false ->
+  has flags NODOTDIR = false -> has flags REALPATH = false ->
+  has flags u_ANCHOR = false -> has flags MATCHBASE = false -> has flags u_EXTMATCHBASE = false ->
+  has flags u_TRANSLATE = false ->
+  wcparse linux flags isb (punUr units endg) =
+  inl (S_ "^(?s" ++ (if get_case linux flags then [] else S_ "i") ++ S_ ":" ++
+       xprint (emit_pathG false (to_psegs (map strip units) endg)) ++ S_ ")$").
+Proof.
+  intros Hne W Hp Hgs Hgl Hdm Hu Hx Hnd Hr Ha Hm He Ht. unfold wcparse.
+  destruct (mk_cfg linux flags isb) as [cf st] eqn:E.
+  assert (Ecf : cf = fst (mk_cfg linux flags isb)) by (rewrite E; reflexivity).
+  assert (Est : st = snd (mk_cfg linux flags isb)) by (rewrite E; reflexivity).
+  assert (Hpath : c_pathname cf = true) by (rewrite Ecf; exact Hp).
+  assert (Hunix : c_unix cf = true) by (rewrite Ecf; exact Hu).
+  assert (Hext : c_extend cf = false) by (rewrite Ecf; exact Hx).
+  assert (Hnodot : c_nodotdir cf = false) by (rewrite Ecf; exact Hnd).
+  assert (Hdot : c_dot cf = false) by (rewrite Ecf; exact Hdm).
+  assert (Hglong : c_globstarlong cf = false) by (rewrite Ecf; unfold mk_cfg; cbn [fst c_globstarlong]; rewrite Hgl; apply andb_false_r).
+  assert (Habort : c_bslash_abort cf = false) by (rewrite Ecf; unfold mk_cfg; cbn [fst c_bslash_abort]; rewrite Hu; reflexivity).
+  assert (Hwd : c_windrive cf = false) by (rewrite Ecf; unfold mk_cfg; cbn [fst c_windrive]; rewrite Hu; reflexivity).
+  assert (Hanchor : c_anchor cf = false) by (rewrite Ecf; exact Ha).
+  assert (Hcap : c_capture cf = false) by (rewrite Ecf; exact Ht).
+  assert (Hreal : c_realpath cf = false) by (rewrite Ecf; unfold mk_cfg; cbn [fst c_realpath]; rewrite Hr; reflexivity).
+  assert (Hgcap : c_gcapture cf = false) by (rewrite Ecf; unfold mk_cfg; cbn [fst c_gcapture]; rewrite Hr; reflexivity).
+  assert (Hcs : c_cs cf = get_case linux flags) by (rewrite Ecf; reflexivity).
+  assert (Hsep : c_sep cf = S_ "[/]") by (rewrite Ecf; unfold mk_cfg; cbn [fst c_sep]; rewrite Hu; reflexivity).
+  assert (Hneed : c_need_char cf = xprint xNeedChar) by (rewrite Ecf; unfold mk_cfg; cbn [fst c_need_char]; rewrite Hp, Hu; reflexivity).
+  assert (Hnodir : c_no_dir cf = xprint xNoDir) by (rewrite Ecf; unfold mk_cfg; cbn [fst c_no_dir]; rewrite Hu; reflexivity).
+  assert (Hseq : c_seq_path cf = xprint xNoSlash) by (rewrite Ecf; unfold mk_cfg; cbn [fst c_seq_path]; rewrite Hu; reflexivity).
+  assert (Hseqdot : c_seq_path_dot cf = xprint xNoSlashDot) by (rewrite Ecf; unfold mk_cfg; cbn [fst c_seq_path_dot]; rewrite Hu; reflexivity).
+  assert (Hstar : c_path_star cf = xprint xPathStar) by (rewrite Ecf; unfold mk_cfg; cbn [fst c_path_star]; rewrite Hu; reflexivity).
+  assert (Hstar1 : c_path_star_dot1 cf = xprint xNoDir ++ xprint xPathStar) by (rewrite Ecf; unfold mk_cfg; cbn [fst c_path_star_dot1]; rewrite Hu; reflexivity).
+  assert (Hstar2 : c_path_star_dot2 cf = xprint xNoDir ++ xprint xStarNoDot) by (rewrite Ecf; unfold mk_cfg; cbn [fst c_path_star_dot2]; rewrite Hu; reflexivity).
+  assert (Hg1 : c_path_gstar_dot1 cf = S_ "(?:(?!(?:[/]|^)(?:\.{1,2})($|[/])).)*?") by (rewrite Ecf; unfold mk_cfg; cbn [fst c_path_gstar_dot1]; rewrite Hu; reflexivity).
+  assert (Hg2 : c_path_gstar_dot2 cf = xprint xGstar) by (rewrite Ecf; unfold mk_cfg; cbn [fst c_path_gstar_dot2]; rewrite Hu; reflexivity).
+  assert (Hmb : matchbase st = false) by (rewrite Est; exact Hm).
+  assert (Hemb : extmatchbase st = false) by (rewrite Est; exact He).
+  assert (Hds : dir_start st = false /\ inv_ext st = 0) by (rewrite Est; split; reflexivity).
+  assert (Hgst : globstar st = true) by (rewrite Est; unfold mk_cfg; cbn [snd globstar]; rewrite Hp, Hgs; cbn; apply orb_true_r).
+  assert (Hinl : in_list st = false) by (rewrite Est; reflexivity).
+  unfold wcparse_cf. rewrite Hanchor, Hmb, Hemb. cbn [orb].
+  rewrite (punUr_not_lone_bs units endg W).
+  destruct (punUr_cons units endg Hne W) as [d [r [Er Hd47]]].
+  remember (punUr units endg) as p eqn:Ep. rewrite Er. rewrite <- Er.
+  unfold root. rewrite Hwd, Hpath, Hreal. cbn [andb negb].
+  replace (starts_with [cSL] p) with false.
+  2:{ rewrite Er. change (starts_with [cSL] (d :: r)) with (N.eqb 47 d && true).
+      destruct (N.eqb_spec 47 d) as [X0|X0]; [exfalso; apply Hd47; symmetry; exact X0|reflexivity]. }
+  rewrite andb_false_r. cbn [negb andb].
+  assert (I2 : inv3 true (set_after_start st)) by (destruct Hds; repeat split; cbn; auto).
+  pose proof (unit_loop_r cf) as UL. repeat match type of UL with (?A -> _) => specialize (UL ltac:(assumption)) end.
+  destruct (UL (fuel_for p) (set_after_start st) 0 (T []) [] true endg) as [st' [cur' [Eq [J [Hd' Hi']]]]].
+  { exact Hne. } { exact W. } { rewrite <- Ep. unfold fuel_for. lia. } { exact I2. } { exact Hgst. } { exact Hinl. } { reflexivity. }
+  rewrite <- Ep in Eq. rewrite Eq.
+  unfold clean_up_inverse. rewrite Hi'. cbn [Z.eqb]. rewrite Hcap, Hcs, Hsep.
+  replace (format Frag.u_PATH_TRAIL (S_ "[/]") []) with (xprint xTrail) by reflexivity.
+  rewrite !jrev_cons, J, EU_top. cbn [jrev rev map concat app].
+  destruct (matchbase st' || extmatchbase st'); reflexivity.
+Qed.
+
+
+(* a pattern of the `**` fragment written with respelled separator runs (after segments and after `**`) and with repeated
+   `**/` compiles to the very regex of its plain spelling *)
+Theorem wcparse_pathG_runs flags isb units endg :
+  (units <> [] \/ endg = true) -> Forall (fun u => uwf_r u = true) units ->
+  has flags PATHNAME = true -> has flags GLOBSTAR = true -> has flags GLOBSTARLONG = false -> has flags DOTMATCH = false ->
+  is_unix_style linux flags = true -> has flags EXTMATCH = false ->
+  has flags NODOTDIR = false -> has flags REALPATH = false ->
+  has flags u_ANCHOR = false -> has flags MATCHBASE = false -> has flags u_EXTMATCHBASE = false ->
+  has flags u_TRANSLATE = false ->
+  wcparse linux flags isb (punUr units endg) = wcparse linux flags isb (punU (map strip units) endg).
+Proof.
+  intros Hne W. intros. rewrite wcparse_pathG_runs_text by assumption. symmetry. apply wcparse_pathG; try assumption.
+  - destruct Hne as [Hne|Hne]; [left; destruct units; [contradiction|discriminate]|right; exact Hne].
+  - apply Forall_map. eapply Forall_impl; [|exact W]. intros [[fr ts] ru] Hu. exact Hu.
+Qed.
+
+Example globstar_runs_example :
+  let u := [(Some ([true], [[]; [false; true]]), [TLit 97%N; TQ], (true, [false])); (None, [TLit 98%N], (false, [true]))] in
+  wcparse linux (PATHNAME + GLOBSTAR) false (punUr u true) = wcparse linux (PATHNAME + GLOBSTAR) false (S_ "**/a?/b/**") /\
+  punUr u true = S_ "**/\/**/**//\/a?\//b/\/**".
+Proof. vm_compute. split; reflexivity. Qed.
 
 (* both halves together: what the produced regex accepts is exactly [DenG] *)
 Theorem C02_globstar_path_language flags isb units endg :
